@@ -90,6 +90,11 @@ impl<R: Read + Seek> ReadBox<&mut R> for StsdBox {
                 "stsd box contains a box with a larger size than it",
             ));
         }
+        if s == 0 {
+            return Err(Error::InvalidData(
+                "stsd box contains a box with size 0",
+            ));
+        }
 
         match name {
             BoxType::Avc1Box => {
